@@ -53,6 +53,23 @@ pub fn run(tr: &mut Tr, seed: u64, histories: usize, len: usize) -> (u64, u64) {
             distinct.insert((le, w, rwrap, kind));
             rd.drop_obj(tr);
         }
+        // a counting wrapper put around a reader that is already at the start of item j, then seeks
+        // through the wrapper: positions are the stream's, the counter is what was consumed through it
+        for _ in 0..2 {
+            let j = rng.random_range(0..items.len());
+            let rcfg = RCfg { le, w: READER_WORDS[rng.random_range(0..4)], kind: "buf", backend: "inf", wrap: "count" };
+            let mut rd = TRd::new_at(tr, &rcfg, &img, starts[j]);
+            read_back(tr, &mut rng, &mut rd, &items[j..], &starts[j..], ww as u64);
+            if !rd.dead {
+                let k = rng.random_range(0..items.len());
+                rd.set_bit_pos(tr, starts[k]);
+                if !rd.dead {
+                    read_back(tr, &mut rng, &mut rd, &items[k..], &starts[k..], ww as u64);
+                }
+            }
+            tests += 2;
+            rd.drop_obj(tr);
+        }
         // copies between wrapped objects, both directions, then more writes
         let rcfg = RCfg { le, w: READER_WORDS[rng.random_range(0..4)], kind: "buf", backend: "inf", wrap: "count" };
         let mut rd = TRd::new(tr, &rcfg, &img);
